@@ -1,10 +1,17 @@
 """C20 - mmCIF item editing changes only its target; CLI output equals the library result.
 
-Decided on transformer.py: CLI - the file_content arguments derive from a read of the input path, the output is
-opened for writing only after that read, what is written is the str component of the library result; library -
-row stores only at the target column (or an append for a new target), the edit reaches the written document
-(in-place on the category's own lists, or an effective replacement), early exits return the input itself, first-seen
-injective mapping that is returned.
+Decided on transformer.py at fact level first (checks/c20e.py): copy_from_to, replace_value and main are evaluated as
+whole functions on stub documents / stub command lines in a closed stub world (dict file system with buffering and
+truncation, model of the mmcif adapter / container / DataCategory, argparse model, tagged library stubs for the CLI),
+one representative per class of the input partition, with a coverage obligation (every statement reached).  The facts:
+missing data / category / source item -> the input text itself; every row's target := its source ('.' and '?'
+included), new item appended, nothing else changes, the *written* document contains the edit; first-seen mapping that
+is returned; an alphabet shorter than the distinct values fails or stays total and injective; no state survives a
+call; the tool writes exactly the text component of the library result for the content of the input file, also with
+output path == input path, and touches nothing when no action is requested.
+
+The pinned-form rules below (statement shapes at the pinned commit) are only the fallback when a function cannot be
+evaluated (a construct outside the supported fragment).
 """
 from __future__ import annotations
 
@@ -21,16 +28,23 @@ from sa.types import FuncTypes, Types
 M = "transformer"
 
 
-def check_cli(chk) -> None:
+def check_cli_args(chk) -> None:
     repo = chk.repo
     fi = repo.func(M, "main")
     chk.note_function(fi)
-    fm = FlowMap(fi.node)
     # argparse: input/output are plain paths
     for a in astq.calls(fi.node, "add_argument"):
         if a.args and isinstance(a.args[0], ast.Constant) and a.args[0].value in ("input", "output"):
             ty = [norm(k.value) for k in a.keywords if k.arg == "type"]
             chk.expect(not ty, "cli-path-args", fi.site(a), f"`{a.args[0].value}` is a plain path", f"`{a.args[0].value}` is declared with type={ty[0] if ty else ''}: the file is opened (and an output truncated) while arguments are parsed, before the input was read" , K(fi, f"arg-type:{a.args[0].value}"))
+
+
+def check_cli(chk) -> None:
+    """Pinned-form fallback for main (used only when checks/c20e.py:check_cli cannot evaluate it)."""
+    repo = chk.repo
+    fi = repo.func(M, "main")
+    chk.note_function(fi)
+    fm = FlowMap(fi.node)
     # content: read of the input path
     reads = []
     for w in [s for s in ast.walk(fi.node) if isinstance(s, ast.With)]:
@@ -108,9 +122,12 @@ def check_cli(chk) -> None:
     chk.expect(body == [flat(f"f.write({norm(writes[0].args[0])})")] if writes else False, "cli-writes-str", fi.where, "the output receives exactly one write of the result", "the output is not written by a single f.write(result)", K(fi, "single-write"))
 
 
-def check_library(chk) -> None:
+def check_library(chk, only=None) -> None:
+    """Pinned-form fallback for the library functions named in `only` (used only when checks/c20e.py cannot evaluate them)."""
     repo = chk.repo
     for q, is_replace in (("copy_from_to", False), ("replace_value", True)):
+        if only is not None and q not in only:
+            continue
         fi = repo.func(M, q)
         chk.note_function(fi)
         fm = FlowMap(fi.node)
@@ -127,10 +144,19 @@ def check_library(chk) -> None:
         # the edit reaches the written document
         attrs = astq.first_assign(fi.node, "attributes")
         rows_loop = [l for l in fi.node.body if isinstance(l, ast.For)]
-        alias = attrs is not None and norm(attrs) == "category_obj.getAttributeList()" and len(rows_loop) == 1 and norm(rows_loop[0].iter) == "category_obj.getRowList()"
+        # the accessors hand out the category's own lists; a copying constructor around one of them makes the edit private
+        accessors = {a: [c for c in ast.walk(fi.node) if isinstance(c, ast.Call) and isinstance(c.func, ast.Attribute) and c.func.attr == a] for a in ("getAttributeList", "getRowList")}
+        copied = [c for c in ast.walk(fi.node) if isinstance(c, ast.Call) and c.args and isinstance(c.args[0], ast.Call) and isinstance(c.args[0].func, ast.Attribute) and c.args[0].func.attr in accessors and norm(c.func).split(".")[-1] in ("list", "tuple", "sorted", "copy", "deepcopy")]
+        copied += [c for c in ast.walk(fi.node) if isinstance(c, ast.Subscript) and isinstance(c.slice, ast.Slice) and isinstance(c.value, ast.Call) and isinstance(c.value.func, ast.Attribute) and c.value.func.attr in accessors]
         repl = [c for c in astq.calls(fi.node, "DataCategory")]
         effective = any(c.args and norm(c.args[0]) == "category" for c in repl)
-        chk.expect(alias or effective, "edit-reaches-output", fi.where, "rows and attributes are the category's own lists (edited in place), so the written document contains the edit", "the edit is made on private copies and the category is 'replaced' by DataCategory(<object>, ...), which does not install it: the written document lacks the edit (e.g. a new target item)", K(fi, "in-place"), found=[norm(attrs) if attrs is not None else None] + [norm(c)[:60] for c in repl])
+        found = [norm(attrs) if attrs is not None else None] + [norm(c)[:60] for c in repl]
+        if effective or (not copied and all(accessors.values())):
+            chk.ok("edit-reaches-output", fi.where, "rows and attributes are the category's own lists (edited in place), so the written document contains the edit")
+        elif copied:
+            chk.violation("edit-reaches-output", fi.site(copied[0]), f"`{norm(copied[0])[:70]}` is a private copy of the category's list and the category is 'replaced' by DataCategory(<object>, ...), which does not install it: the written document lacks the edit (e.g. a new target item)", K(fi, "in-place"), found=found)
+        else:
+            chk.error("edit-reaches-output", fi.where, "how the rows / attributes of the category are reached is not recognised (no getAttributeList() / getRowList() accessor)")
         wr = [c for c in astq.calls(fi.node, "writeFile")]
         rets = [r for r in astq.walk_no_nested(fi.node) if isinstance(r, ast.Return) and r.lineno > first_store]
         want_ret = "(f.read(), mapping)" if is_replace else "f.read()"
@@ -152,12 +178,13 @@ def check_library(chk) -> None:
             chk.expect(mi is not None and norm(mi) == "{}", "row-stores", fi.where, "the mapping starts empty", "mapping is not initialised empty", K(fi, "mapping-init"))
 
 
-def check_library_eval(chk) -> None:
-    """The editing fragment of both library functions (from the attribute list to the re-serialisation) evaluated on small categories:
+def check_library_eval(chk, only=None) -> None:
+    """Fallback: the editing fragment of a library function (from the attribute list to the re-serialisation) evaluated on small categories:
     only the target column changes, a new target item is appended to every row, the mapping is first-seen and injective."""
     from sa.blockeval import BlockEval, Unknown
 
     repo = chk.repo
+    only = ("copy_from_to", "replace_value") if only is None else only
 
     class _Cat:
         _folder_stub = True
@@ -182,7 +209,9 @@ def check_library_eval(chk) -> None:
     # ---- copy_from_to ------------------------------------------------------------------------------------
     fi = repo.func(M, "copy_from_to")
     frag = fragment(fi)
-    if frag is None:
+    if "copy_from_to" not in only:
+        pass
+    elif frag is None:
         chk.error("edit-eval", fi.where, "editing fragment of copy_from_to not found")
     else:
         cases = [
@@ -209,7 +238,9 @@ def check_library_eval(chk) -> None:
     # ---- replace_value ------------------------------------------------------------------------------------
     fi = repo.func(M, "replace_value")
     frag = fragment(fi)
-    if frag is None:
+    if "replace_value" not in only:
+        pass
+    elif frag is None:
         chk.error("edit-eval", fi.where, "editing fragment of replace_value not found")
     else:
         cases = [
@@ -232,7 +263,11 @@ def check_library_eval(chk) -> None:
             chk.error("edit-eval", fi.where, f"replace_value fragment not evaluable: {ex}")
         except Exception as ex:
             chk.violation("edit-eval", fi.where, f"replace_value raises {type(ex).__name__} ({ex}) on a small category", K(fi, "edit-raises"))
+
+
+def check_memo(chk) -> None:
     # ---- no memoisation of parsed (mutable) documents -------------------------------------------------------------
+    repo = chk.repo
     n = 0
     for q, g in sorted(repo.modules[M].funcs.items()):
         decs = [d for d in g.decorators if d.split("(")[0].split(".")[-1] in ("cache", "lru_cache")]
@@ -242,27 +277,68 @@ def check_library_eval(chk) -> None:
     chk.ok("memo-mutable", f"src/rnapolis/{M}.py", "no function of the module is memoised")
 
 
+def _fact_level(chk, fn, fi) -> "str | None":
+    """Runs a fact-level rule group of checks/c20e.py; an internal failure is a reason to fall back, never a verdict."""
+    try:
+        return fn(chk, fi)
+    except AnalysisError:
+        raise
+    except Exception as ex:  # pragma: no cover - defensive
+        return f"internal {type(ex).__name__}: {ex}"
+
+
 def run(chk) -> None:
+    from checks import c20e
+
     chk.explanation = (
-        "Static rules on transformer.py. CLI: path-vs-content kinds (the argument bound to file_content must be the .read() of the file opened on args.input), light type inference on the value written "
-        "(replace_value returns a (str, dict) tuple), ordering of the open-for-write after the read, plain-path argparse arguments. Library: the only stores into a row are at the target column (or an append "
-        "for a new item), early exits return the parameter itself, the edit is made on the category's own lists (the DataCategory 'replacement' is not what installs it), first-seen mapping that is returned."
+        "transformer.py decided by evaluating copy_from_to, replace_value and main as whole functions (ast interpreted by sa/blockeval.py + checks/c20e.py; nothing of rnapolis is imported or run) on one "
+        "representative per class of their input partition in a closed stub world: documents with no block / without the category / without the source item / with '.', '?', quoted and repeated values / a new "
+        "target item / a category without rows / a second untouched block; alphabets longer than, exactly as long as and shorter than the number of distinct values; command lines with each option group "
+        "complete, partial, absent, both, each with distinct paths and with output path == input path. Stubs: dict file system (buffered writes, truncation at open-for-write, temporary files deleted on close), "
+        "IoAdapterPy.readFile/writeFile, data container (replace installs only under an existing name), DataCategory (deep-copying constructor, getValueOrDefault returning the default for '.', '?', None), argparse "
+        "(FileType opens while parsing), and for the CLI the library functions as stubs returning a text that names the arguments they received. Every statement of the evaluated functions must be reached by a "
+        "representative. The pinned-form rules are only a fallback for a function that cannot be evaluated."
     )
-    chk.trusted = ["CPython ast", "mmcif IoAdapterPy re-serialises untouched categories faithfully", "category_obj.getAttributeList()/getRowList() return the category's own lists"]
-    chk.assumptions = ["values has enough symbols for the distinct values (IndexError otherwise is the caller's contract)"]
-    chk.robust |= {"cli-path-args", "cli-content", "cli-writes-str", "cli-wiring", "edit-eval", "memo-mutable", "edit-reaches-output", "cli-open-order-evidence"}
+    chk.trusted = ["CPython ast", "mmcif IoAdapterPy re-serialises untouched categories faithfully", "the stub model of mmcif DataCategory / DataContainer / IoAdapterPy in checks/c20e.py follows the library's documented behaviour"]
+    chk.assumptions = ["values has enough symbols for the distinct values (an exception otherwise is the caller's contract; a normal return must still be a total injective substitution)", "only the first data block is edited (the rules use no document where the category also occurs in a later block)"]
+    chk.robust |= {"cli-path-args", "cli-content", "cli-writes-str", "cli-wiring", "edit-eval", "memo-mutable", "cli-open-order-evidence", "edit-reaches-output", "early-exit-eval", "mapping-total", "repeat-eval", "default-alphabet", "cli-eval", "cli-inplace-eval"}
     chk.superseded.update({"row-stores": "edit-eval", "new-item": "edit-eval"})
-    check_cli(chk)
-    check_library(chk)
-    check_library_eval(chk)
-    for rule, n in (("cli-content", 3), ("cli-writes-str", 2), ("row-stores", 3), ("early-exit-identity", 4), ("edit-reaches-output", 2)):
-        chk.floor(rule, n)
+    repo = chk.repo
+    check_cli_args(chk)
+    fi = repo.func(M, "main")
+    chk.note_function(fi)
+    why = cli_why = _fact_level(chk, c20e.check_cli, fi)
+    if why is None:
+        for rule, n in (("cli-eval", 10), ("cli-inplace-eval", 10)):
+            chk.floor(rule, n)
+    else:
+        chk.ok("cli-facts", fi.where, f"fact-level reading of main not possible ({why[:160]}); falling back to the pinned forms")
+        check_cli(chk)
+        for rule, n in (("cli-content", 3), ("cli-writes-str", 2)):
+            chk.floor(rule, n)
+    fallback = []
+    for q, fn in (("copy_from_to", c20e.check_copy), ("replace_value", c20e.check_replace)):
+        fi = repo.func(M, q)
+        chk.note_function(fi)
+        why = _fact_level(chk, fn, fi)
+        if why is not None:
+            chk.ok("library-facts", fi.where, f"fact-level reading of {q} not possible ({why[:160]}); falling back to the pinned forms")
+            fallback.append(q)
+    if fallback:
+        check_library(chk, fallback)
+        check_library_eval(chk, fallback)
+    else:
+        for rule, n in (("early-exit-eval", 8), ("edit-eval", 12), ("mapping-total", 3), ("repeat-eval", 2), ("eval-coverage", 3 if cli_why is None else 2)):
+            chk.floor(rule, n)
+    check_memo(chk)
 
 
 MANIFEST_ENTRY = {
-    "text": "Static decision on the current source of transformer.py: the CLI feeds the library the text of the input file (not its path), writes exactly the str component of the library result, and opens the output only after "
-    "reading the input; the library writes only the target column of each row (append for a new item), returns the input itself on every early exit, applies a first-seen mapping that it returns, and edits the lists the "
-    "writer serialises. The frame condition and the CLI path are never executed by the suite; here they are facts about every path of the code.",
+    "text": "Static decision on the current source of transformer.py: copy_from_to, replace_value and main are evaluated from their ast (nothing is imported or run) on one representative per class of their inputs in a stub world "
+    "(dict file system, model of the mmcif adapter / container / DataCategory, argparse model). Facts decided: a missing block / category / source item returns the input text itself; every row's target becomes its source "
+    "('.' and '?' included), a new item is appended, nothing else changes and the written document contains the edit; the first-seen mapping is applied and returned, and an alphabet with too few symbols fails or stays total "
+    "and injective; no state survives a call; the CLI writes exactly the text component of the library result for the content of the input file, also when output and input are the same path, and touches nothing without an action. "
+    "The frame condition and the CLI path are never executed by the suite; here they are facts about every statement of the code (coverage obligation).",
     "note": "Trusted: mmcif library re-serialisation of untouched categories and its list-returning accessors.",
-    "technique": "static analysis: kind analysis (path vs content), light type inference of written values, statement-order rule, store-target frame condition over the ast",
+    "technique": "static analysis: whole-function evaluation of the ast on input-class representatives in a stub world (files, mmcif objects, argparse), coverage obligation; pinned-form rules as fallback",
 }
